@@ -75,6 +75,7 @@ type vfContext struct {
 	ml.Context
 	b       *vfBackend
 	pending []func()
+	driver  bool // created by the driver for a forward pass (an aborted pass is legitimately closed without Compute)
 }
 
 func vfStrides(shape []int) []int {
@@ -149,9 +150,14 @@ func (c *vfContext) Compute(ts ...ml.Tensor) {
 func (c *vfContext) Reserve() error     { return nil }
 func (c *vfContext) MaxGraphNodes() int { return c.b.maxNodes }
 func (c *vfContext) Close() {
-	c.b.dropped += len(c.pending)
+	if !c.driver {
+		c.b.dropped += len(c.pending)
+	}
 	c.pending = nil
 }
+
+// passContext: a context the driver owns (the runner's per-batch context)
+func (b *vfBackend) passContext() ml.Context { return &vfContext{b: b, driver: true} }
 
 // vfTensor is a strided view over a shared backing array (element strides).
 type vfTensor struct {
@@ -956,7 +962,7 @@ func vfBatch(op vfOp) input.Batch {
 }
 
 func (r *vfRun) forward(opi int, op vfOp) (string, bool) {
-	ctx := r.backend.NewContext()
+	ctx := r.backend.passContext()
 	defer ctx.Close()
 	r.fwdPre(op, true)
 	moves0 := r.taint.moves
@@ -1291,9 +1297,10 @@ func (r *vfRun) step(opi int, op vfOp) {
 		x, fwdOK = r.forward(opi, op)
 		x = "F:" + x
 	case 'V':
-		ctx := r.backend.NewContext()
+		ctx := r.backend.passContext()
 		before := r.reservePre()
 		err := c.StartForward(ctx, vfBatch(op), true)
+		ctx.Compute() // (only the mask's dtype conversion is in the graph)
 		x = "V" + r.reservePost(opi, op, ctx, err, before)
 		fwdOK = true
 		ctx.Close()
@@ -1315,7 +1322,7 @@ func (r *vfRun) step(opi int, op vfOp) {
 		r.acctQ(opi, op, res)
 		x = fmt.Sprintf("Q:%v", res)
 	case 'E':
-		ctx := r.backend.NewContext()
+		ctx := r.backend.passContext()
 		c.SetCausal(ctx, CausalOptions{Except: op.ex})
 		ctx.Compute()
 		if r.passOp >= 0 {
@@ -1491,7 +1498,7 @@ func (wr *vfWRun) step(opi int, op vfOp) {
 	fwdOK := false
 	switch op.kind {
 	case 'F':
-		ctx := wr.views[0].backend.NewContext()
+		ctx := wr.views[0].backend.passContext()
 		batch := vfBatch(op)
 		err := wr.w.StartForward(ctx, batch, false)
 		// which wrapped caches had their StartForward executed (white box: curPositions aliases the batch)
@@ -1524,12 +1531,13 @@ func (wr *vfWRun) step(opi int, op vfOp) {
 		}
 		ctx.Close()
 	case 'V':
-		ctx := wr.views[0].backend.NewContext()
+		ctx := wr.views[0].backend.passContext()
 		var before []vfMeta
 		for _, v := range wr.views {
 			before = append(before, v.reservePre())
 		}
 		err := wr.w.StartForward(ctx, vfBatch(op), true)
+		ctx.Compute()
 		for i, v := range wr.views {
 			details[i] = v.reservePost(opi, op, ctx, err, before[i])
 		}
@@ -1549,7 +1557,7 @@ func (wr *vfWRun) step(opi int, op vfOp) {
 			v.acctRemove(opi, op, err)
 		}
 	case 'E':
-		ctx := wr.views[0].backend.NewContext()
+		ctx := wr.views[0].backend.passContext()
 		// as gemma3 does it: per layer type, on the underlying cache
 		for i := range wr.views {
 			wr.w.SetLayerType(i)
